@@ -4,6 +4,12 @@ K1  storage-mode dispatch.  Encoded from MIR: authorship::post_commit::post_comm
     (incl. strip_prompt_messages, checkpoint_entry_requires_post_processing), with the working-log
     producers, the config lookup, the login state, secret redaction, the CAS enqueue and notes_add as
     environment models.  The value handed to notes_add is inspected.
+K2  which storage mode applies.  Encoded from MIR: config::Config::{effective_prompt_storage, should_exclude_prompts}
+    and PromptStorageMode::from_str with `glob::Pattern::matches` as an arbitrary but consistent predicate on
+    (pattern, remote URL) and `Repository::remotes_with_urls` as environment.  Obligation: the mode is the one
+    the documented policy gives — exclusion always wins (Local), without an include list the configured mode,
+    with one the configured mode for matching repositories and the fallback (default Local) otherwise; in
+    particular Notes (transcripts in shared notes) only when the user's configuration says so for this repository.
 The redaction half ("every high-entropy token is masked") is NOT APPLICABLE to this family: secrets.rs
 decides by ln/exp/sqrt over f64 on 15-90 byte tokens.
 """
@@ -101,6 +107,30 @@ def install(M):
     M.env[PC + '::enqueue_prompt_messages_to_cas'] = enqueue
     M.env['git::refs::notes_add'] = notes_add
 
+    # K2: glob matching = arbitrary, per-path consistent predicate; remotes = harness answer
+    def matches(P, c, args, dt):
+        st = P.state['c08_policy']
+        pat = tgt(args[0]).p
+        url = bytes(concrete_bytes(as_bytes(args[1]))).decode()
+        if pat == '*':
+            return TRUE
+        k = (pat, url)
+        if k not in st['table']:
+            st['table'][k] = P.choice(2) == 1
+        return Sc(st['table'][k], 0)
+
+    def pat_as_str(P, c, args, dt):
+        return pystr(tgt(args[0]).p)
+
+    def remotes(P, c, args, dt):
+        rem = P.state['c08_policy']['remotes']
+        if rem is None:
+            return err(Opaque('GitAiError', 'remotes'))
+        return ok(VecV([tup(pystring('r%d' % i), pystring(u)) for i, u in enumerate(rem)]))
+    M.env['glob::Pattern::matches'] = matches
+    M.env['glob::Pattern::as_str'] = pat_as_str
+    M.env['git::repository::Repository::remotes_with_urls'] = remotes
+
 
 def plan(tier, seed):
     tasks = []
@@ -113,6 +143,14 @@ def plan(tier, seed):
                             if mode != 'Default' and (logged or custom or not cas_ok):
                                 continue
                             tasks.append(('dispatch', {'mode': mode, 'prompts': npr, 'messages': nm, 'logged_in': logged, 'custom_api': custom, 'cas_ok': cas_ok}))
+    for nex in (0, 1, 2):
+        for nin in (0, 1, 2):
+            for nrem in (-1, 0, 1, 2):
+                tasks.append(('policy', {'exclude': nex, 'include': nin, 'remotes': nrem}))
+    tasks.append(('policy', {'exclude': 1, 'include': 1, 'remotes': 1, 'ex_wild': True}))
+    tasks.append(('policy', {'exclude': 0, 'include': 1, 'remotes': 0, 'in_wild': True}))
+    tasks.append(('policy', {'exclude': 1, 'include': 1, 'remotes': -1, 'in_wild': True, 'no_repo': True}))
+    tasks.append(('policy', {'exclude': 2, 'include': 2, 'remotes': 1, 'in_wild': True}))
     return tasks
 
 
@@ -183,8 +221,132 @@ def ob_dispatch(h, shape):
     h.sample = h.witness()
 
 
-OBLIGATIONS = {'dispatch': ob_dispatch}
+CONFIG = 'config::Config'
+MODES = {'default': 'Default', 'notes': 'Notes', 'local': 'Local'}
+
+
+def ob_policy(h, shape):
+    P = h.P
+    M = P.M
+    nex, nin, nrem = shape['exclude'], shape['include'], shape['remotes']
+    ex = ['*' if (shape.get('ex_wild') and i == 0) else 'ex%d' % i for i in range(nex)]
+    inc = ['*' if (shape.get('in_wild') and i == 0) else 'in%d' % i for i in range(nin)]
+    rem = ['url%d' % i for i in range(nrem)] if nrem >= 0 else None      # -1: no repository / remotes unavailable
+    table = {}
+    P.state['c08_policy'] = {'table': table, 'remotes': rem}
+    ps = ['default', 'notes', 'local', 'Notes ', 'garbage'][h.choice(5)]
+    dps = [None, 'default', 'notes', 'local', 'garbage'][h.choice(5)]
+    names = M.src.struct_fields(CONFIG)
+    vals = {n: Opaque('unused-config-field', n) for n in names}
+    vals['exclude_prompts_in_repositories'] = VecV([Opaque('Pattern', x) for x in ex])
+    vals['include_prompts_in_repositories'] = VecV([Opaque('Pattern', x) for x in inc])
+    vals['prompt_storage'] = pystring(ps)
+    vals['default_prompt_storage'] = some(pystring(dps)) if dps is not None else none()
+    cfg = Agg(CONFIG, [vals[n] for n in names])
+    repo = none() if shape.get('no_repo') else some(Agg('git::repository::Repository', []))
+    try:
+        r = P.call_named(CONFIG + '::effective_prompt_storage', [Ref(Cell(cfg)), Ref(Cell(repo))])
+    except Panic as e:
+        h.panic('K2-no-panic', e.msg)
+        return
+    got = r.var
+
+    def parse(x):
+        return MODES.get(x.strip().lower()) if x is not None else None
+    have_remotes = rem is not None and not shape.get('no_repo')
+    urls = rem if have_remotes else []
+
+    def m(p, u):
+        return p == '*' or table.get((p, u), False)
+    if '*' in ex:
+        excluded = True
+    elif not ex or not have_remotes or not urls:
+        excluded = False
+    else:
+        excluded = any(m(p, u) for u in urls for p in ex)
+    if excluded:
+        want = 'Local'
+    elif not inc:
+        want = parse(ps) or 'Default'
+    else:
+        if urls:
+            inm = any(m(p, u) for u in urls for p in inc)
+        else:
+            inm = '*' in inc
+        want = (parse(ps) or 'Default') if inm else (parse(dps) or 'Local')
+    h.inputs_struct = {'exclude': ex, 'include': inc, 'remotes': rem, 'no_repo': bool(shape.get('no_repo')), 'prompt_storage': ps, 'default_prompt_storage': dps,
+                       'matches': [[k[0], k[1], v] for k, v in sorted(table.items())]}
+    h.require(got == want, 'K2-mode-follows-the-documented-policy', 'effective mode %s, documented policy gives %s' % (got, want))
+    if got == 'Notes':
+        h.require(not excluded, 'K2-excluded-repository-never-gets-notes-mode', 'transcripts go to the shared notes of a repository the user excluded')
+    h.cover('K2-excluded', excluded)
+    h.cover('K2-notes', got == 'Notes')
+    h.sample = h.witness()
+
+
+OBLIGATIONS = {'dispatch': ob_dispatch, 'policy': ob_policy}
+MUST_COVER = ['K2-excluded', 'K2-notes']
 
 
 def replay(v, native):
-    return {'reproduced': False, 'note': 'end-to-end replay of post_commit needs a checkpointed repository; not implemented'}
+    ob = v['obligation']
+    inp = v['inputs']
+    if not ob.startswith('K2-'):
+        return {'reproduced': False, 'note': 'end-to-end replay of post_commit needs a checkpointed repository; not implemented'}
+    if inp.get('remotes') is None and not inp.get('no_repo'):
+        return {'reproduced': False, 'note': 'a repository whose remotes cannot be listed is not staged natively'}
+    import json
+    import os
+    import subprocess
+    import tempfile
+    urls = ['https://h.example/u%d' % i for i in range(len(inp.get('remotes') or []))]
+    table = {(p, u): b for p, u, b in inp['matches']}
+
+    def real(p):
+        if p == '*':
+            return '*'
+        hit = [i for i in range(len(urls)) if table.get((p, 'url%d' % i))]
+        if not hit:
+            return 'nomatch-' + p
+        return '*u[%s]' % ''.join(str(i) for i in hit)
+    cfg = {'exclude_prompts_in_repositories': [real(p) for p in inp['exclude']],
+           'include_prompts_in_repositories': [real(p) for p in inp['include']],
+           'prompt_storage': inp['prompt_storage']}
+    if inp['default_prompt_storage'] is not None:
+        cfg['default_prompt_storage'] = inp['default_prompt_storage']
+    home = tempfile.mkdtemp(prefix='vc08')
+    try:
+        os.makedirs(os.path.join(home, '.git-ai'))
+        json.dump(cfg, open(os.path.join(home, '.git-ai', 'config.json'), 'w'))
+        exe = native.__globals__['replay_binary']()
+        payload = {'remotes': urls if inp.get('remotes') is not None else None, 'no_repo': inp.get('no_repo', False)}
+        env = dict(os.environ, HOME=home)
+        p = subprocess.run([exe, 'c08_policy'], input=json.dumps(payload).encode(), stdout=subprocess.PIPE, stderr=subprocess.PIPE, env=env, timeout=60)
+        if p.returncode == 101:
+            return {'reproduced': v['kind'] == 'panic', 'stderr': p.stderr.decode('utf-8', 'replace')[-300:]}
+        got = json.loads(p.stdout.decode().strip().splitlines()[-1])['mode']
+        # the reference policy on the concrete instance
+        have = bool(urls) and not inp.get('no_repo')
+        ex, inc = inp['exclude'], inp['include']
+
+        def m(pn, i):
+            return pn == '*' or bool(table.get((pn, 'url%d' % i)))
+        if '*' in ex:
+            excluded = True
+        elif not ex or not have:
+            excluded = False
+        else:
+            excluded = any(m(pn, i) for i in range(len(urls)) for pn in ex)
+        parse = lambda x: {'default': 'default', 'notes': 'notes', 'local': 'local'}.get(x.strip().lower()) if x is not None else None
+        if excluded:
+            want = 'local'
+        elif not inc:
+            want = parse(inp['prompt_storage']) or 'default'
+        else:
+            inm = any(m(pn, i) for i in range(len(urls)) for pn in inc) if have else ('*' in inc)
+            want = (parse(inp['prompt_storage']) or 'default') if inm else (parse(inp['default_prompt_storage']) or 'local')
+        bad = {'K2-mode-follows-the-documented-policy': got != want,
+               'K2-excluded-repository-never-gets-notes-mode': got == 'notes' and excluded}
+        return {'reproduced': bool(bad.get(ob)), 'native_mode': got, 'policy': want, 'config': cfg}
+    finally:
+        subprocess.call(['rm', '-rf', home])
